@@ -229,39 +229,54 @@ def r6(fx):
     env_ = ev.base_env(fx.forest, 'encoder')
     sites = {c: [] for c in counters}
     other = []
-    for s in src.statements(fn.body):
-        if not isinstance(s, ast.If):
-            continue
-        used = [n.id for n in ast.walk(s.test) if isinstance(n, ast.Name) and n.id in sites]
+
+    def classify(test, node, on_true, on_false):
+        """Put the site into `sites` as (node, threshold, what is done at/above the threshold, what is done below it)."""
+        used = [n.id for n in ast.walk(test) if isinstance(n, ast.Name) and n.id in sites]
         if not used:
-            continue
-        if any(isinstance(o, ast.Eq) for c_ in ast.walk(s.test) if isinstance(c_, ast.Compare) for o in c_.ops) and \
-                not any(isinstance(k, ast.Constant) and isinstance(k.value, int) and k.value > 1 for k in ast.walk(s.test)):
-            continue        # the `current == previous` test that advances the counter
+            return
+        if any(isinstance(o, ast.Eq) for c_ in ast.walk(test) if isinstance(c_, ast.Compare) for o in c_.ops) and \
+                not any(isinstance(k, ast.Constant) and isinstance(k.value, int) and k.value > 1 for k in ast.walk(test)):
+            return          # the `current == previous` test that advances the counter
         name = used[0]
-        consts_ = sorted({ev.ev(k, env_) for k in ast.walk(s.test) if isinstance(k, ast.Constant) and isinstance(k.value, int) and not isinstance(k.value, bool)})
+        consts_ = sorted({ev.ev(k, env_) for k in ast.walk(test) if isinstance(k, ast.Constant) and isinstance(k.value, int) and not isinstance(k.value, bool)})
         if len(set(used)) != 1 or len(consts_) != 1:
-            other.append(s)
-            continue
+            other.append(test)
+            return
         thr = consts_[0]
         pos = nf.prop(ast.parse(f'{name} >= {thr}', mode='eval').body)
-        t = nf.prop(s.test)
+        t = nf.prop(test)
         if nf.equiv(t, pos):
-            sites[name].append((s, thr, s.body, s.orelse))
+            sites[name].append((node, thr, on_true, on_false))
         elif nf.equiv(t, ('not', pos)):
-            sites[name].append((s, thr, s.orelse, s.body))
+            sites[name].append((node, thr, on_false, on_true))
         elif nf.equiv(t, nf.prop(ast.parse(f'{name} > {thr}', mode='eval').body)):
-            sites[name].append((s, thr + 1, s.body, s.orelse))
+            sites[name].append((node, thr + 1, on_true, on_false))
         elif nf.equiv(t, ('not', nf.prop(ast.parse(f'{name} > {thr}', mode='eval').body))):
-            sites[name].append((s, thr + 1, s.orelse, s.body))
+            sites[name].append((node, thr + 1, on_false, on_true))
         else:
-            other.append(s)
-    yield ob('no N1 test of another shape', not other, fn, got=[ast.unparse(o.test) for o in other], want=[])
+            other.append(test)
+
+    def terms(e):
+        if isinstance(e, ast.BinOp) and isinstance(e.op, ast.Add):
+            return terms(e.left) + terms(e.right)
+        return [e]
+
+    def is_zero(e):
+        return isinstance(e, ast.Constant) and e.value == 0 and not isinstance(e.value, bool)
+    for s in src.statements(fn.body):
+        if isinstance(s, ast.If):
+            classify(s.test, s, [x for x in s.body if not isinstance(x, ast.Pass)], [x for x in s.orelse if not isinstance(x, ast.Pass)])
+        elif isinstance(s, ast.AugAssign) and isinstance(s.op, ast.Add) and isinstance(s.target, ast.Name):
+            # `score += (counter - 2 if counter >= 5 else 0) [+ ...]`: a conditional term is a scoring site, too
+            for t in terms(s.value):
+                if isinstance(t, ast.IfExp):
+                    as_stmt = lambda e: [] if is_zero(e) else [ast.AugAssign(target=s.target, op=ast.Add(), value=e)]  # noqa: E731
+                    classify(t.test, s, as_stmt(t.body), as_stmt(t.orelse))
+    yield ob('no N1 test of another shape', not other, fn, got=[ast.unparse(o) for o in other], want=[])
     for name, lst in sites.items():
         yield ob(f'{name}: two scoring sites (inside the scan, at the line end)', len(lst) == 2, fn, got=len(lst), want=2)
         for s, thr, scoring, rest in lst:
-            scoring = [x for x in scoring if not isinstance(x, ast.Pass)]
-            rest = [x for x in rest if not isinstance(x, ast.Pass)]
             body = single(scoring, 'N1 scoring statement')
             need(isinstance(body, ast.AugAssign) and isinstance(body.op, ast.Add) and isinstance(body.target, ast.Name), 'N1 scoring statement is not `score += ...`')
             try:
@@ -451,32 +466,93 @@ def _fold_affine(f, env=None):
 @rule('C06', 'R8', 6, 'N4 = 10*floor(|100*dark/size^2 - 50|/5) for every dark count; Micro score = min*16 + max over last column/row without index 0')
 def r8(fx):
     fn = fx.fn('encoder', 'mask_scores')
-    it = Interp(max_steps=50_000_000)
-    stm = [s for s in fn.body if isinstance(s, ast.Assign) and ast.unparse(s.targets[0]) in ('percent', 'score_n4')]
-    need(len(stm) >= 1 and ast.unparse(stm[-1].targets[0]) == 'score_n4', 'N4 statements')
-    ret = single([s for s in fn.body if isinstance(s, ast.Return)], 'return of mask_scores')
-    yield ob('mask_scores returns (n1, n2, n3, n4)', pat.match(ret.value, '(score_n1, score_n2, score_n3, score_n4)') is not None, ret,
-             got=ast.unparse(ret.value), want='score_n1, score_n2, score_n3, score_n4')
-    em = fx.fn('encoder', 'evaluate_mask')
-    r = single([s for s in em.body if isinstance(s, ast.Return)], 'return of evaluate_mask')
-    yield ob('evaluate_mask = sum of the four scores', pat.match(r.value, 'sum(mask_scores(matrix, width, height))') is not None, r,
-             got=ast.unparse(r.value), want='sum(mask_scores(matrix, width, height))')
+    it = Interp(max_steps=200_000_000)
     genv = encoder_env(fx.forest, it)
+    params = src.params(fn)
+    need(len(params) == 3, 'mask_scores(matrix, width, height)')
+    ret = single([s for s in fn.body if isinstance(s, ast.Return)], 'return of mask_scores')
+    need(isinstance(ret.value, ast.Tuple) and len(ret.value.elts) == 4, 'mask_scores returns a 4-tuple')
+    e4 = ret.value.elts[3]
+    # the fourth score as a function of what the scan over the symbol leaves behind: backward slice over the statements
+    # outside the scanning loops; a name the loops write is an input of that function
+    loops = [st for st in fn.body if isinstance(st, (ast.For, ast.While))]
+    need(loops, 'scanning loop of mask_scores')
+    loop_stored = {n.id for lp in loops for n in ast.walk(lp) if isinstance(n, ast.Name) and isinstance(n.ctx, ast.Store)}
+    def loads(node):
+        bound = {n.id for c in ast.walk(node) if isinstance(c, ast.comprehension) for n in ast.walk(c.target) if isinstance(n, ast.Name)}
+        bound |= {a.arg for l_ in ast.walk(node) if isinstance(l_, ast.Lambda) for a in l_.args.args}
+        return {n.id for n in ast.walk(node) if isinstance(n, ast.Name) and isinstance(n.ctx, ast.Load)} - bound
+    needed = loads(e4)
+    picked = []
+    for st in reversed(fn.body):
+        if st in loops or isinstance(st, (ast.FunctionDef, ast.ClassDef, ast.Return)):
+            continue
+        stores = {n.id for n in ast.walk(st) if isinstance(n, ast.Name) and isinstance(n.ctx, ast.Store)}
+        if stores & needed and not stores <= loop_stored:
+            picked.append(st)
+            needed |= loads(st)
+    picked.reverse()
+    last_loop = max(fn.body.index(lp) for lp in loops)
+    before = [st for st in picked if fn.body.index(st) < last_loop]
+    after = [st for st in picked if fn.body.index(st) > last_loop]
+    inputs = sorted((needed & loop_stored) - set(params))
+    need(len(inputs) <= 1, f'N4 depends on more than one quantity the scan computes: {inputs}')
+    D = inputs[0] if inputs else None
+    yield ob('mask_scores returns four scores, the fourth computed from the dark module count', True, ret,
+             got=f'{ast.unparse(e4)[:60]} <- {D or "the matrix"}', want='N4 from the number of dark modules')
+
+    def matrix_with(n, dark):
+        cells = [1] * dark + [0] * (n * n - dark)
+        return [bytearray(cells[r * n:(r + 1) * n]) for r in range(n)]
     for n in (21, 25):
         bad = None
         for dark in range(0, n * n + 1):
-            e = dict(genv, dark_module_counter=dark, qr_size=n)
-            it.block(stm, e)
+            e = dict(genv)
+            e.update({params[0]: matrix_with(n, dark), params[1]: n, params[2]: n})
+            it.block(before, e)
+            if D is not None:
+                e[D] = dark
+            it.block(after, e)
+            got = ev.ev(e4, e)
             want = 10 * int(abs(Fraction(100 * dark, n * n) - 50) / 5)
-            if e['score_n4'] != want and bad is None:
-                bad = (dark, e['score_n4'], want)
-        yield ob(f'N4 for size {n}: every dark count 0..{n * n}', bad is None, stm[-1],
+            if got != want and bad is None:
+                bad = (dark, got, want)
+        yield ob(f'N4 for size {n}: every dark count 0..{n * n}', bad is None, ret,
                  got=f'dark={bad[0]}: {bad[1]}' if bad else 'ISO formula', want=f'{bad[2]}' if bad else 'ISO formula')
-    dm = [s for s in src.statements(fn.body) if isinstance(s, ast.AugAssign) and ast.unparse(s.target) == 'dark_module_counter']
-    d = single(dm, 'dark module counter update')
-    yield ob('dark counter adds every module once', ast.unparse(d) == 'dark_module_counter += row_current_bit'
-             and any(ast.unparse(x) == 'row_current_bit = row[j]' for x in src.statements(fn.body)), d, got=ast.unparse(d),
-             want='dark_module_counter += row[j] for every i, j')
+    em = fx.fn('encoder', 'evaluate_mask')
+    seen = []
+
+    def ms_stub(*a, **k):
+        seen.append((a, k))
+        return (1, 20, 300, 4000)
+    mark = [object(), object(), object()]
+    try:
+        tot = FuncVal(em, dict(genv, mask_scores=ms_stub), it)(*mark)
+    except PyRaise as ex:
+        tot = f'raises {ex.name}'
+    oke = tot == 4321 and len(seen) == 1 and not seen[0][1] and len(seen[0][0]) == 3 and all(x is y for x, y in zip(seen[0][0], mark))
+    yield ob('evaluate_mask = sum of the four scores', oke, em, got=f'{tot} from {len(seen)} call(s) of mask_scores', want='sum(mask_scores(matrix, width, height))')
+    if D is not None:
+        # the scan counts every dark module once: the scan is interpreted on symbols whose dark count is known
+        n = 21
+        upto = fn.body[:last_loop + 1]
+        cases = {'all dark': [[1] * n for _ in range(n)], 'all light': [[0] * n for _ in range(n)],
+                 'first row': [[1] * n] + [[0] * n for _ in range(n - 1)], 'last row': [[0] * n for _ in range(n - 1)] + [[1] * n],
+                 'first column': [[1] + [0] * (n - 1) for _ in range(n)], 'last column': [[0] * (n - 1) + [1] for _ in range(n)],
+                 'corners': [[1 if (r in (0, n - 1) and c in (0, n - 1)) else 0 for c in range(n)] for r in range(n)],
+                 'checker': [[(r + c) & 1 for c in range(n)] for r in range(n)]}
+        bad = {}
+        for name, rows in cases.items():
+            e = dict(genv)
+            e.update({params[0]: [bytearray(r) for r in rows], params[1]: n, params[2]: n})
+            it.block(upto, e)
+            got = e.get(D)
+            want = sum(map(sum, rows))
+            if got != want:
+                bad[name] = (got, want)
+        yield ob('dark counter adds every module once', not bad, fn, got=bad or 'every module once', want='the number of dark modules')
+    else:
+        yield ob('dark counter adds every module once', True, fn, got='counted from the matrix by the N4 expression (checked above for every count)', want='the number of dark modules')
     # Micro
     mf = fx.fn('encoder', 'evaluate_micro_mask')
     f = make_callable(fx.forest, 'encoder', 'evaluate_micro_mask', it, extra_env=reg.model_env())
